@@ -174,7 +174,7 @@ fn acc_configs(quick: bool) -> Vec<AccCfg> {
                 i += 1;
                 // T >= 36 m so that 6 standard errors stay below the slack of the claim; bounded by an item budget
                 let want = 36 * m;
-                let budget: u64 = if quick { 30_000_000 } else { 600_000_000 };
+                let budget: u64 = if quick { 30_000_000 } else { 150_000_000 };
                 let t = want.min((budget / n).max(200));
                 v.push(AccCfg { b, q, m, n, wide: i % 2 == 0, repeat: i % 3 == 0, t });
             }
